@@ -492,7 +492,9 @@ def mutate(t, rng):
     j = rng.randrange(len(obs))
     o = obs[j]
     r = rng.random()
-    if r < 0.3:
+    if o[0] == "lose" and evs[i]["e"] != "close":
+        obs.insert(j, list(o))                       # (dropping it would be legal: closing after an undeclared error is free)
+    elif r < 0.3:
         obs.pop(j)                                   # an observation lost (a Deferred that never fires, a box never written)
     elif r < 0.5:
         obs.insert(j, list(o))                       # ... duplicated (fires twice)
@@ -515,9 +517,13 @@ def run(ctx):
     from harness.core import MachineryError
 
     # the full run goes without -coverage (it triples the cost); the vacuity guard runs on a sub-model with coverage on
-    r = ctx.mc("AmpRPCMC", ctx.pick("AmpRPCMC.cfg", "AmpRPCMC.thorough.cfg"), coverage=False)
+    r = ctx.mc("AmpRPCMC", "AmpRPCMC.cfg", coverage=False, label="2 calls, 7 responder kinds, undeclared error may or may not close")
     if not r.ok:
         raise MachineryError("AmpRPC spec violates its own invariants: " + r.error)
+    if not ctx.quick:
+        r3 = ctx.mc("AmpRPCMC", "AmpRPCMC.thorough.cfg", coverage=False, label="3 calls (<= 2 per peer), 5 responder kinds")
+        if not r3.ok:
+            raise MachineryError("AmpRPC spec violates its own invariants: " + r3.error)
     rc = ctx.mc("AmpRPCMC", "AmpRPCMC.cov.cfg", label="coverage / vacuity guard on a sub-model")
     if not rc.ok:
         raise MachineryError("AmpRPC spec violates its own invariants: " + rc.error)
@@ -576,6 +582,10 @@ def run(ctx):
     ctx.extra["spec_behaviours_replayed"] = len(behs)
     ctx.extra["spec_behaviours_not_reproduced"] = drift      # each of these is also rejected by TLC below
     ctx.exhaustive = False
+    import collections
+    fires = collections.Counter(o[2] for t in traces for e in t["ev"] for o in e["obs"] if o[0] == "fire")
+    ctx.extra["deferred_results_observed"] = dict(fires)          # non-vacuity: every result class occurs in real runs
+    ctx.extra["calls_failed_immediately_after_loss"] = sum(1 for t in traces for e in t["ev"] if e["e"] == "call" and e["obs"] and e["obs"][0][0] == "fire")
     ctx.note_traces(traces)
     ctx.log("recorded %d real executions (%d sweep runs over %d scenarios)" % (len(traces), nsweep, len(scen)))
     rej = ctx.validate("AmpRPCTrace", traces, shard_size=ctx.pick(1200, 4000))
